@@ -107,11 +107,21 @@ func RunWorker(prop, hname, tier string, caseIdx int, outDir string, verbose boo
 	if cases == 0 {
 		cases = 1
 	}
+	pipeT := 10 * time.Second
+	if ts.PipeS > 0 {
+		pipeT = time.Duration(ts.PipeS) * time.Second
+	}
 	opt := interp.Options{
 		Harness: hname, OutDir: outDir, Case: caseIdx, Cases: cases,
-		FeasTimeout: 2 * time.Second, PipeTimeout: 10 * time.Second, PortTimeout: time.Duration(oblS) * time.Second,
+		FeasTimeout: 2 * time.Second, PipeTimeout: pipeT, PortTimeout: time.Duration(oblS) * time.Second,
 		Backends: backends, MaxPaths: ts.MaxPaths, Deadline: start.Add(time.Duration(tmo) * time.Second),
 		Verbose: verbose, Pin: pin, Witnesses: witnessCount(h, tier, caseIdx),
+	}
+	if ts.PipeMs > 0 {
+		opt.PipeTimeout = time.Duration(ts.PipeMs) * time.Millisecond
+	}
+	if ts.FeasMs > 0 {
+		opt.FeasTimeout = time.Duration(ts.FeasMs) * time.Millisecond
 	}
 	eng, err := interp.NewEngine(opt)
 	if err != nil {
